@@ -470,6 +470,47 @@ func (cs *caseState) checkStoreAndRefs(r *run, live svcrig.State, op Op, step in
 			fmt.Sprintf("C14/stray-store-key/%s/fault=%s/%s", op.Method, fl, keyClass(k)),
 			"unexpected key in the store: "+k, op, step, fi, nil)
 	}
+	// the service's derived index of reserved pipeline names (a restarted server
+	// rebuilds it from the stored pipelines): must be exactly the names in use
+	cs.stats["reserved_name_index_checks"]++
+	{
+		want := map[string]bool{}
+		for _, p := range live.Pipelines {
+			want[p.Name] = true
+		}
+		got := map[string]bool{}
+		for _, n := range r.rig.Pipelines.VerifReservedNames() {
+			got[n] = true
+		}
+		var diffs []string
+		for n := range want {
+			if !got[n] {
+				diffs = append(diffs, "missing:"+trunc(n))
+			}
+		}
+		for n := range got {
+			if !want[n] {
+				diffs = append(diffs, "stale:"+trunc(n))
+			}
+		}
+		sort.Strings(diffs)
+		if len(diffs) > 0 {
+			key := "n|" + strings.Join(diffs, ",")
+			now[key] = true
+			if !standing[key] {
+				kind := "missing"
+				if strings.HasPrefix(diffs[len(diffs)-1], "stale:") {
+					kind = "stale"
+				}
+				cs.violation("memory-differs-from-store",
+					fmt.Sprintf("C14/memory-differs-from-store/%s/fault=%s/pipeline.reserved-names:%s", op.Method, fl, kind),
+					fmt.Sprintf("after %s (err=%q) the live pipeline service's reserved-names index differs from the names of the existing pipelines (which is what a restarted server reserves): %v", op.Method, res.Err, diffs),
+					op, step, fi, map[string]any{"result": res, "index_differences": diffs})
+			} else {
+				cs.stats["standing_differences_not_reattributed"]++
+			}
+		}
+	}
 	cs.stats["reference_closure_checks"]++
 	for _, d := range svcrig.Closure(live) {
 		key := "d|" + d.Kind + "|" + d.ID + "|" + d.Got
